@@ -520,3 +520,253 @@ def episode_cases(draw, tier, names, max_b=None, sources=None):
         case["lat"] = draw(spec.lattice(cfg, B, exact=(src == "lat")))
     case["rows"] = [draw(row_strategy()) for _ in range(B)]
     return case
+
+
+# --------------------------------------------------------------------------- scheduling / graph specs
+class FJSP(Spec):
+    name = "fjsp"
+    routing = False
+
+    def cfg(self, tier):
+        big = tier != "quick"
+
+        @st.composite
+        def c(draw):
+            jobs = draw(st.integers(1, 6 if big else 4))
+            mas = draw(st.integers(1, 4 if big else 3))
+            lo = draw(st.integers(1, 3))
+            hi = draw(st.integers(lo, 4 if big else 3))
+            return {"jobs": jobs, "mas": mas, "min_ops": lo, "max_ops": hi,
+                    "max_pt": draw(st.sampled_from([3, 6, 9, 20])),
+                    "max_elig": draw(st.integers(1, mas)), "same_mean": draw(st.booleans()),
+                    "mask_no_ops": draw(st.booleans())}
+        return c()
+
+    def build(self, cfg):
+        from rl4co.envs import FJSPEnv
+        return FJSPEnv(generator_params=dict(
+            num_jobs=cfg["jobs"], num_machines=cfg["mas"], min_ops_per_job=cfg["min_ops"],
+            max_ops_per_job=cfg["max_ops"], min_processing_time=1, max_processing_time=cfg["max_pt"],
+            min_eligible_ma_per_op=1, max_eligible_ma_per_op=cfg["max_elig"], same_mean_per_op=cfg["same_mean"]),
+            mask_no_ops=cfg["mask_no_ops"])
+
+    one_machine_per_op = False
+
+    def lattice(self, cfg, B, exact=True):
+        jobs, mas = cfg["jobs"], cfg["mas"]
+
+        @st.composite
+        def row(draw):
+            nops = [draw(st.integers(cfg["min_ops"], cfg["max_ops"])) for _ in range(jobs)]
+            pts = []
+            for _ in range(sum(nops)):
+                if self.one_machine_per_op:
+                    m = draw(st.integers(0, mas - 1))
+                    t = draw(st.integers(1, cfg["max_pt"]))
+                    pts.append([t if i == m else 0 for i in range(mas)])
+                else:
+                    col = draw(st.lists(st.integers(0, cfg["max_pt"]), min_size=mas, max_size=mas))
+                    if not any(col):
+                        col[draw(st.integers(0, mas - 1))] = draw(st.integers(1, cfg["max_pt"]))
+                    pts.append(col)
+            return nops, pts
+        return st.lists(row(), min_size=B, max_size=B).map(lambda rows: {"rows": rows})
+
+    def from_lattice(self, cfg, lat):
+        rows = lat["rows"]
+        B = len(rows)
+        mas = cfg["mas"]
+        nmax = max(sum(r[0]) for r in rows)
+        proc = torch.zeros(B, mas, nmax)
+        pad = torch.ones(B, nmax, dtype=torch.bool)
+        start = torch.zeros(B, cfg["jobs"], dtype=torch.int64)
+        end = torch.zeros(B, cfg["jobs"], dtype=torch.int64)
+        for b, (nops, pts) in enumerate(rows):
+            k = 0
+            for j, n in enumerate(nops):
+                start[b, j] = k
+                end[b, j] = k + n - 1
+                k += n
+            for o, col in enumerate(pts):
+                for m in range(mas):
+                    proc[b, m, o] = float(col[m])
+                pad[b, o] = False
+        return TensorDict({"start_op_per_job": start, "end_op_per_job": end, "proc_times": proc, "pad_mask": pad},
+                          batch_size=[B])
+
+    def bound(self, cfg, r):
+        nops = sum(1 for p in r["pad_mask"] if not p)
+        return 2 * nops + 1
+
+    def slice_of(self, cfg):
+        return "mask_no_ops" if cfg["mask_no_ops"] else "wait_allowed"
+
+
+class JSSP(FJSP):
+    name = "jssp"
+    one_machine_per_op = True
+
+    def cfg(self, tier):
+        big = tier != "quick"
+
+        @st.composite
+        def c(draw):
+            jobs = draw(st.integers(1, 6 if big else 4))
+            mas = draw(st.integers(1, 4 if big else 3))
+            one2one = draw(st.booleans())
+            if one2one:
+                lo = hi = mas
+            else:
+                lo = draw(st.integers(1, 3))
+                hi = draw(st.integers(lo, 4 if big else 3))
+            return {"jobs": jobs, "mas": mas, "min_ops": lo, "max_ops": hi, "one2one": one2one,
+                    "max_pt": draw(st.sampled_from([3, 9, 99])), "mask_no_ops": draw(st.booleans())}
+        return c()
+
+    def build(self, cfg):
+        from rl4co.envs import JSSPEnv
+        return JSSPEnv(generator_params=dict(
+            num_jobs=cfg["jobs"], num_machines=cfg["mas"], min_ops_per_job=cfg["min_ops"],
+            max_ops_per_job=cfg["max_ops"], min_processing_time=1, max_processing_time=cfg["max_pt"],
+            one2one_ma_map=cfg["one2one"]), mask_no_ops=cfg["mask_no_ops"])
+
+
+class FFSP(Spec):
+    name = "ffsp"
+    routing = False
+
+    def cfg(self, tier):
+        big = tier != "quick"
+        return st.tuples(st.integers(1, 6 if big else 4), st.integers(1, 3), st.integers(1, 3),
+                         st.sampled_from([3, 5, 10])).map(
+            lambda t: {"jobs": t[0], "stages": t[1], "mas": t[2], "max_time": t[3]})
+
+    def build(self, cfg):
+        from rl4co.envs import FFSPEnv
+        return FFSPEnv(generator_params=dict(num_stage=cfg["stages"], num_machine=cfg["mas"], num_job=cfg["jobs"],
+                                             min_time=1, max_time=cfg["max_time"]))
+
+    def env(self, cfg):
+        # one env object serves one episode at a time (per-object tables / step counter): never cached
+        return self.build(cfg)
+
+    def lattice(self, cfg, B, exact=True):
+        mt = cfg["stages"] * cfg["mas"]
+        row = st.lists(st.lists(st.integers(1, cfg["max_time"]), min_size=mt, max_size=mt),
+                       min_size=cfg["jobs"], max_size=cfg["jobs"])
+        return st.fixed_dictionaries({"run_time": st.lists(row, min_size=B, max_size=B)})
+
+    def from_lattice(self, cfg, lat):
+        return TensorDict({"run_time": torch.tensor(lat["run_time"], dtype=torch.int64)},
+                          batch_size=[len(lat["run_time"])])
+
+    def bound(self, cfg, r):
+        J, S, M = cfg["jobs"], cfg["stages"], cfg["mas"]
+        horizon = sum(max(row) for row in r["run_time"]) * 1 + S + 1
+        return J * S + S * M * (horizon + 1) + 1
+
+
+class SMTWTP(Spec):
+    name = "smtwtp"
+    routing = False
+
+    def build(self, cfg):
+        from rl4co.envs import SMTWTPEnv
+        return SMTWTPEnv(generator_params=dict(num_job=cfg["n"]))
+
+    def lattice(self, cfg, B, exact=True):
+        n = cfg["n"]
+        v = lambda hi: st.lists(st.integers(0, hi).map(lambda k: k / 8.0), min_size=n, max_size=n).map(lambda l: [0.0] + l)
+        return st.fixed_dictionaries({
+            "job_due_time": st.lists(v(8 * n), min_size=B, max_size=B),
+            "job_weight": st.lists(v(8), min_size=B, max_size=B),
+            "job_process_time": st.lists(v(8), min_size=B, max_size=B),
+        })
+
+    def bound(self, cfg, r):
+        return cfg["n"]
+
+
+class FLP(Spec):
+    name = "flp"
+    routing = False
+    has_depot_action = False
+
+    def sizes(self, tier):
+        return st.integers(2, 12) if tier == "quick" else st.integers(2, 30)
+
+    def cfg(self, tier):
+        return self.sizes(tier).flatmap(lambda n: st.integers(1, n).map(lambda k: {"n": n, "k": k}))
+
+    def build(self, cfg):
+        from rl4co.envs import FLPEnv
+        return FLPEnv(generator_params=dict(num_loc=cfg["n"], to_choose=cfg["k"]))
+
+    def lattice(self, cfg, B, exact=True):
+        return st.fixed_dictionaries({"locs": st.lists(coords(cfg["n"]), min_size=B, max_size=B)})
+
+    def from_lattice(self, cfg, lat):
+        from rl4co.utils.ops import get_distance_matrix
+        locs = t32(lat["locs"])
+        B, n = locs.shape[:2]
+        return TensorDict({"locs": locs, "orig_distances": get_distance_matrix(locs),
+                           "distances": torch.full((B, n), math.sqrt(2.0)),
+                           "chosen": torch.zeros(B, n, dtype=torch.bool),
+                           "to_choose": torch.full((B,), cfg["k"], dtype=torch.long)}, batch_size=[B])
+
+    def bound(self, cfg, r):
+        return cfg["k"]
+
+
+class MCP(Spec):
+    name = "mcp"
+    routing = False
+    has_depot_action = False
+
+    def cfg(self, tier):
+        big = tier != "quick"
+
+        @st.composite
+        def c(draw):
+            items = draw(st.integers(3, 40 if big else 16))
+            sets = draw(st.integers(2, 20 if big else 8))
+            lo = draw(st.integers(1, min(4, items)))
+            hi = draw(st.integers(lo, min(items, lo + 5)))
+            return {"items": items, "sets": sets, "min_size": lo, "max_size": hi, "k": draw(st.integers(1, sets))}
+        return c()
+
+    def build(self, cfg):
+        from rl4co.envs import MCPEnv
+        return MCPEnv(generator_params=dict(num_items=cfg["items"], num_sets=cfg["sets"], min_size=cfg["min_size"],
+                                            max_size=cfg["max_size"], n_sets_to_choose=cfg["k"]))
+
+    def lattice(self, cfg, B, exact=True):
+        items, sets = cfg["items"], cfg["sets"]
+        one_set = st.lists(st.integers(1, items), min_size=cfg["min_size"], max_size=cfg["max_size"], unique=True)
+        return st.fixed_dictionaries({
+            "sets": st.lists(st.lists(one_set, min_size=sets, max_size=sets), min_size=B, max_size=B),
+            "weights": st.lists(st.lists(st.integers(1, 10), min_size=items, max_size=items), min_size=B, max_size=B),
+        })
+
+    def from_lattice(self, cfg, lat):
+        B = len(lat["sets"])
+        width = max(len(s) for row in lat["sets"] for s in row)
+        mem = torch.zeros(B, cfg["sets"], width)
+        for b, row in enumerate(lat["sets"]):
+            for j, s in enumerate(row):
+                for i, it in enumerate(s):
+                    mem[b, j, i] = float(it)
+        return TensorDict({"membership": mem, "weights": t32(lat["weights"]),
+                           "n_sets_to_choose": torch.full((B, 1), float(cfg["k"]))}, batch_size=[B])
+
+    def bound(self, cfg, r):
+        return cfg["k"]
+
+
+for _s in [FJSP(), JSSP(), FFSP(), SMTWTP(), FLP(), MCP()]:
+    SPECS[_s.name] = _s
+
+ROUTING = ["tsp", "atsp", "cvrp", "sdvrp", "cvrptw", "svrp", "op", "pctsp", "spctsp", "pdp", "mtsp", "mtvrp"]
+SCHEDULING = ["fjsp", "jssp", "ffsp", "smtwtp"]
+GRAPH = ["flp", "mcp"]
+ALL_ENVS = ROUTING + SCHEDULING + GRAPH
